@@ -744,6 +744,8 @@ namespace R
                return seq( [ = ]( int q ) { return rep( n, A, q ); }, [ = ]( int q ) { return star( A, q ); }, pos );
             }
             case REP_MIN2_2: return seq( [ = ]( int q ) { return rep( 2, AB, q ); }, [ = ]( int q ) { return star( AB, q ); }, pos );
+            case REP_MIN1_2: return seq( [ = ]( int q ) { return rep( 1, AB, q ); }, [ = ]( int q ) { return star( AB, q ); }, pos );
+            case REP_MIN0_2: return star( AB, pos );
             case REP_MAX0:
             case REP_MAX1:
             case REP_MAX2:
